@@ -174,7 +174,8 @@ def gen_case(ctx):
             elif y < 0.12:
                 ids.append(ids[0])                      # the same object twice: KeyError
             single = len(ids) == 1 and r.random() < 0.5
-            ops.append({"op": k, "ids": ids, "ref": r.random() < 0.8, "single": single})
+            ref = r.random() < 0.8
+            ops.append({"op": k, "ids": ids, "ref": ref, "single": single, "default_ref": ref and r.random() < 0.5})
             for x in ids:
                 if x in alive_l:
                     alive_l.remove(x); dead_l.append(x)
@@ -803,9 +804,12 @@ def run_case(ctx, case, with_model=True):
             if err is not None and op["op"] in ("cut_out", "from_list", "net_remove_lanelet", "net_remove_sign",
                                                 "net_remove_light", "net_remove_inter"):
                 rep.fail(f"raises-{err}", f"raises {res[2]} on a well-formed network")
+            before = len(ctx.failures) if hasattr(ctx, "failures") else len(ctx.keys)
             oracle_step(ctx, rep, case, op, mop, B, A, err, impl_keep=mop.get("keep"))
             if not py_nodangling(A):
                 rep.fail("dangling/any", "the network holds a reference to an id it does not contain")
+            if (len(ctx.failures) if hasattr(ctx, "failures") else len(ctx.keys)) != before:
+                oracle_on = False   # the rest of this history starts from a broken state: report the first failing step only
         elif oracle_on:
             oracle_on = False   # cleanup_ids=False leaves dangling references by design: outside the property from here on
             ctx.excluded += 1
@@ -819,7 +823,7 @@ def run_case(ctx, case, with_model=True):
 def run(ctx):
     for p in sorted(glob.glob(os.path.join(CORPUS_DIR, "C10", "*.json"))):
         run_case(ctx, json.load(open(p)))
-    for _ in range(ctx.n(400)):
+    for _ in range(ctx.n(1200)):
         run_case(ctx, gen_case(ctx))
 
 
